@@ -346,7 +346,10 @@ def run_case(case):
                 if keys(state) not in [keys(x) for x in seq]:
                     bad.append(("memory cache after the threads finished differs from every sequential execution",
                                 "resident entries %s; sequential orders give %s" % (state, seq)))
-            elif budget == "16MiB" and not bad and state not in seq:
+            elif budget == "16MiB" and not bad and state[1] not in [x[1] for x in seq]:
+                # (entries and whether they hold a value; the byte count itself may differ by the allocation slack of equal
+                # objects - a list unpickled from the store vs one built by the body - and is judged by the accounting
+                # invariant: usage = sum of booked sizes, booked size = the cache's own estimate of the resident value)
                 bad.append(("memory cache after the threads finished differs from every sequential execution",
                             "final (usage, resident entries) %s; sequential orders give %s" % (state, seq)))
             elif not bad and state[0] not in {x[0] for x in seq} and budget == "16MiB":
